@@ -604,6 +604,8 @@ type RunResult struct {
 	// Retried: a second Execute was made on the same context with RunSpec.Retry (after the first one failed)
 	Retried     bool   `json:"retried,omitempty"`
 	RetryFailed bool   `json:"retryfailed,omitempty"`
+	// RetryFrom: index into Calls of the first call made by the second Execute
+	RetryFrom int `json:"retryfrom,omitempty"`
 	RetryErr    string `json:"retryerr,omitempty"`
 }
 
@@ -717,6 +719,7 @@ func Run(rs RunSpec) (res RunResult) {
 				again = append(again, g)
 			}
 			res.Retried = true
+			res.RetryFrom = len(calls)
 			if err := c.Execute(context.Background(), again...); err != nil {
 				res.RetryFailed = true
 				res.RetryErr = err.Error()
